@@ -33,7 +33,7 @@ def replay(binp, sub, cases, workdir, tag, extra=(), timeout=3000):
         out = os.path.join(workdir, "%s-mism-%d.ndjson" % (tag, i))
         nt = os.path.join(workdir, "%s-nt-%d.txt" % (tag, i))
         cmd = [binp, sub, "--in", cases, "--out", out, "--nt", nt, "--shard", str(i), "--of", str(NPROC)] + list(extra)
-        env = dict(os.environ, GOMAXPROCS="2", GOGC="300")
+        env = dict(os.environ, GOMAXPROCS="1", GOGC="200")
         procs.append((subprocess.Popen(cmd, stdout=subprocess.PIPE, stderr=subprocess.STDOUT, text=True, env=env), out, nt, cmd))
     total, mism, nontriv = {}, [], set()
     for p, out, nt, cmd in procs:
